@@ -140,6 +140,26 @@ STMT_ZOO = [
     "PublicInteger(x0)", "range()", "range(1, 2)", "range('a')", "str()", "str(1)", "str('a')", "sum()", "sum([1])", "sum(x0)",
     "sum([x0], x0)", "x0.if_else()", "x0.if_else(x0)", "x0.if_else(x0, x0)", "(x0 < x0).if_else(1, 2)", "(x0 < x0).if_else(x0, 'a')",
     "True.if_else(x0, x0)", "Party(name='a').name",
+    # `*` / `**` unpackings at the constructors the checker knows by their keywords
+    "q = Input(name='a', **opts)", "q = Input(**opts, party=p0)", "q = Input(**a, **b)", "q = Input(*args)", "q = Input('a', *rest)",
+    "q = Party(**kw)", "q = Party(*names)", "q = Output(x0, **kw)", "q = Output(**kw, name='o')", "q = Output(*triple)",
+    "q = SecretInteger(Input(name='a', **opts))", "q = SecretInteger(**kw)", "q = Integer(*one)", "q = sum(*ls)", "q = range(*r)",
+    "q = x0.if_else(*branches)", "q = (x0 < x0).if_else(x0, **kw)", "q = helper(**kw)", "q = helper(x0, **kw)", "q = str(**kw)",
+    # loop bodies whose static environment never settles (a swap of two differently typed variables, self-nesting)
+    "for i in range(2):\n    t_ = x0\n    x0 = p0\n    p0 = t_", "for i in range(3):\n    x0 = [x0]", "for i in range(2):\n    l = [l]",
+    "for i in range(2):\n    t_ = x0\n    x0 = 'a'\n    t_ = x0", "for i in range(2):\n    x0, p0 = p0, x0",
+    "for i in range(2):\n    for j in range(2):\n        x0 = [x0]", "for i in range(4):\n    s_ = 1\n    s_ = 'a'\n    s_ = [s_]",
+    "acc_ = Integer(0)\nfor i in range(3):\n    acc_ = acc_ + x0", "a_ = Integer(0)\nb_ = Integer(0)\nfor i in range(2):\n    b_ = a_\n    a_ = x0",
+]
+# statements that are type errors but only just: a checker that is slightly too generous accepts them, and then the value
+# bound at run time is not of the inferred type
+NEAR_MISS = [
+    "nm: int = 1 < 2", "nm: int = True", "nm: int = not True", "nm: bool = 1", "nm: int = True and False", "nm: int = 'a'", "nm: str = 1",
+    "nm: list[int] = [True]", "nm: list[int] = [1 < 2]", "nm: list[bool] = [1]", "nm: SecretInteger = Integer(1)", "nm: Integer = x0",
+    "nm: PublicInteger = Integer(2)", "nm: list[SecretInteger] = [Integer(1)]", "nm: list[Integer] = [x0]", "nm: SecretInteger = x0 < x0",
+    "nm: list[list[int]] = [[True]]", "nm: int = x0", "nm: SecretInteger = 1", "nm: list[int] = [[1]]", "nm: list[list[int]] = [1]",
+    "nm: int = 1\nnm2: bool = nm", "nm: bool = 1 < 2\nnm2: int = nm", "nm = [1, 2]\nnm[0] = True", "nm = [True]\nnm.append(1)",
+    "nm = [1]\nnm.append(1 < 2)", "nm: list[int] = []\nnm.append(True)", "nm = [x0]\nnm.append(Integer(1))",
 ]
 EXPR_ZOO = [
     "x0", "1", "1.5", "1j", "'s'", "b's'", "None", "True", "False", "...", "-x0", "+x0", "-1", "- 1", "-'s'", "+'s'", "not x0", "not True", "~x0", "~1",
@@ -225,11 +245,17 @@ def corrupt(rng, text):
 def generate(rng, mode=None):
     """mode: 'clean' (strict subset, well typed), 'typed' (type errors), 'zoo' (arbitrary syntax),
     'corrupt' (syntax errors); default: random mix"""
-    mode = mode or rng.choice(["clean", "clean", "typed", "zoo", "zoo", "zoo", "corrupt"])
+    mode = mode or rng.choice(["clean", "clean", "typed", "zoo", "zoo", "zoo", "corrupt", "nearmiss"])
     # `wrong`: a helper whose declared return type is not the class it returns / an item assignment of another class —
     # also in otherwise clean programs, so that such a flaw is the only one the checker has to notice
     body, ints, bools, lists = base_program(rng, wrong=(mode == "typed" or rng.random() < 0.25))
     helpers = [h for h in HELPERS if rng.random() < 0.3] + list(base_program.helpers)
+    if mode == "nearmiss":
+        # an otherwise clean program with exactly one statement that is only just ill-typed, followed by a use of what it bound
+        pos = rng.randrange(1, len(body))
+        stmt = rng.choice(NEAR_MISS)
+        body.insert(pos, stmt)
+        body.insert(pos + 1, rng.choice(["nu = nm", "nu = [nm]", "nu = nm"]))
     if mode in ("typed", "zoo", "corrupt"):
         for _ in range(rng.randint(1, 4 if mode == "typed" else 7)):
             pos = rng.randrange(len(body))
